@@ -9,13 +9,15 @@ from vlib.props import grammar_texts
 
 ID = 'C02'
 LEVEL = 'exploration'
-DECIDING = ['parse_roundtrip']
+DECIDING = ['parse_roundtrip', 'interleaved_parsestream']
 RULE = ('inputs: char soup, token soup, bracket/keyword soup, mutated '
         'tests/files/*.sql, multi-statement grammar scripts with every '
         'separator form, and every sequence of <=2 (quick) / <=3 (thorough) '
         'atoms; oracle: joined str() of parse() (and of parsestream()) is the '
         'input minus a whitespace-only tail, and str() of every node equals '
-        'its leaves. distinct_nontrivial = distinct tree shapes containing '
+        'its leaves; every 12th input additionally runs as two parsestream() '
+        'generators advanced alternately with a parse() call in between. '
+        'distinct_nontrivial = distinct tree shapes containing '
         'at least one group node below the statement')
 ASSUMPTIONS = ['observation at sqlparse.parse / parsestream / str(node); '
                'M-SPLIT hook (token conservation in the splitter) is '
@@ -63,6 +65,57 @@ def check_text(rec, kind, text, stream=False):
                     'statements': len(stmts)})
 
 
+def check_interleaved(rec, a, b):
+    """Two parsestream() generators alive at once, advanced alternately, and
+    a parse() call in the middle: every result must still round-trip."""
+    rec.case()
+    rec.monitor('interleaved_parsestream')
+    case = {'text': a, 'other': b, 'interleaved': True}
+    try:
+        ga, gb = sqlparse.parsestream(a), sqlparse.parsestream(io.StringIO(b))
+        sa, sb = [], []
+        da = db = False
+        k = 0
+        while not (da and db):
+            k += 1
+            if not da:
+                try:
+                    sa.append(next(ga))
+                except StopIteration:
+                    da = True
+            if k == 2:
+                mid = sqlparse.parse(b)
+            if not db:
+                try:
+                    sb.append(next(gb))
+                except StopIteration:
+                    db = True
+    except sqlparse.exceptions.SQLParseError:
+        hooks.STATE.drain_violations()
+        return
+    except Exception as exc:
+        hooks.STATE.drain_violations()
+        if isinstance(exc, (RecursionError,)):
+            return
+        # does the same text raise when parsed alone? then it is C07's
+        try:
+            sqlparse.parse(a)
+            sqlparse.parse(b)
+        except Exception:
+            return
+        rec.violation('interleaved-raised', case, '%s: %s' % (
+            type(exc).__name__, exc), key='ilexc')
+        return
+    hooks.STATE.drain_violations()
+    for text, stmts in ((a, sa), (b, sb)):
+        err = oracles.parse_roundtrip(text, stmts)
+        if err:
+            rec.violation('interleaved-roundtrip', case,
+                          'with two parsestream() generators advanced '
+                          'alternately: ' + err, key='il')
+            return
+
+
 def shard(ctx):
     rec, rng = ctx.rec, ctx.rng
     hooks.install_split_monitor()
@@ -79,6 +132,9 @@ def shard(ctx):
         else:
             kind, text = 'grammar', gen.text()
         check_text(rec, kind, text, stream=(i % 5 == 0))
+        if i % 12 == 0:
+            check_interleaved(rec, text, gen.text() if rng.random() < 0.5
+                              else hostile.token_soup(rng))
     rec.count('splitter_events', hooks.STATE.split_events)
     for u in hooks.STATE.unavailable:
         rec.note('hook unavailable: ' + u)
@@ -86,5 +142,8 @@ def shard(ctx):
 
 def replay(ctx, kind, case):
     hooks.install_split_monitor()
-    check_text(ctx.rec, case.get('source', 'replay'), case['text'],
-               case.get('stream', False))
+    if case.get('interleaved'):
+        check_interleaved(ctx.rec, case['text'], case['other'])
+    else:
+        check_text(ctx.rec, case.get('source', 'replay'), case['text'],
+                   case.get('stream', False))
